@@ -595,14 +595,14 @@ package runtime
 //@ func ToNumberValue
 //@   prop C16
 //@   arith bv
-//@   requires valueOK(v)
 //@   modifies nothing
 //@   ensures isInt(v) ==> result0 == v && result1 == IsInt
 //@   ensures isFloat(v) ==> result0 == v && result1 == IsFloat
 //@   ensures result1 == IsInt || result1 == IsFloat || result1 == NaN
 //@   ensures result1 == NaN ==> result0 == v && !isNum(v)
-//@   ensures result1 == IsInt ==> isInt(result0) && result0.iface == dummyInt64
-//@   ensures result1 == IsFloat ==> isFloat(result0) && result0.iface == dummyFloat64
+//@   ensures result1 == IsInt ==> isInt(result0)
+//@   ensures result1 == IsFloat ==> isFloat(result0)
+//@   ensures valueOK(v) ==> valueOK(result0)
 //@   ensures !isNum(v) && !typeis(v.iface, string) ==> result1 == NaN
 
 // Advancing the loop: the next value is start+step; the loop ends (the control
@@ -644,3 +644,112 @@ package runtime
 //@   assert_before_call setReg#1: isFloat(start) && $val != NilValue ==> $val == start
 //@   assert_before_call setReg#2: $reg == stopReg && $val == stop
 //@   assert_before_call setReg#3: $reg == stepReg && (isInt(start) && isInt(step) ==> $val == step) && (isFloat(step) ==> $val == step) && (isFloat(start) && isInt(step) ==> isFloatVal($val, float64(step.AsInt())))
+
+// ---------------------------------------------------------------------------
+// C03: tables.  Stage 1: the array part, key normalisation, the border, and the
+// traversal step of the array part (integer mode: indices are mathematical
+// integers with explicit wrap-around, invariants quantify over all positions).
+// ---------------------------------------------------------------------------
+
+// Representation invariant of the array part: everything from len on is nil and
+// the element at len (if any) is not - so len is a border of the array part.
+//@ macro arrOK(a) = (0 <= a.len && a.len <= len(a.values) && forall(j, a.len, len(a.values), a.values[j].IsNil()) && (a.len == 0 || !a.values[a.len-1].IsNil()))
+//@ macro inArr(a, i) = (a != nil && 1 <= i && i <= len(a.values))
+
+//@ func (*array).get
+//@   prop C03
+//@   arith int
+//@   modifies nothing
+//@   ensures ok == inArr(a, i)
+//@   ensures ok ==> v == a.values[i-1]
+
+//@ func (*array).size
+//@   prop C03
+//@   arith int
+//@   modifies nothing
+//@   ensures a == nil ==> result == 0
+//@   ensures a != nil ==> result == len(a.values)
+
+//@ func (*array).getLen
+//@   prop C03
+//@   arith int
+//@   modifies nothing
+//@   ensures a == nil ==> result == 0
+//@   ensures a != nil ==> result == a.len
+
+// Storing a non-nil value keeps the border invariant (storing nil is done by
+// remove, which re-establishes it).
+//@ func (*array).setValue
+//@   prop C03
+//@   arith int
+//@   requires a != nil ==> arrOK(a)
+//@   requires !v.IsNil()
+//@   modifies a.values[i-1], a.len
+//@   ensures ok == inArr(a, i)
+//@   ensures ok ==> a.values[i-1] == v && forall(j, 0, len(a.values), j != i-1 ==> a.values[j] == old(a.values[j]))
+//@   ensures !ok && a != nil ==> a.len == old(a.len) && forall(j, 0, len(a.values), a.values[j] == old(a.values[j]))
+//@   ensures a != nil ==> arrOK(a) && len(a.values) == old(len(a.values))
+
+//@ func (*array).resetValue
+//@   prop C03
+//@   arith int
+//@   requires a != nil ==> arrOK(a)
+//@   requires !v.IsNil()
+//@   modifies a.values[i-1]
+//@   ensures ok == inArr(a, i)
+//@   ensures ok ==> wasSet == !old(a.values[i-1]).IsNil()
+//@   ensures ok && wasSet ==> a.values[i-1] == v
+//@   ensures ok && !wasSet ==> a.values[i-1] == old(a.values[i-1])
+//@   ensures a != nil ==> forall(j, 0, len(a.values), j != i-1 ==> a.values[j] == old(a.values[j]))
+//@   ensures a != nil ==> arrOK(a)
+
+//@ func (*array).remove
+//@   prop C03
+//@   arith int
+//@   requires a != nil ==> arrOK(a)
+//@   modifies a.values[i-1], a.len
+//@   ensures ok == inArr(a, i)
+//@   ensures ok ==> wasSet == !old(a.values[i-1]).IsNil()
+//@   ensures ok ==> a.values[i-1].IsNil()
+//@   ensures a != nil ==> forall(j, 0, len(a.values), j != i-1 ==> a.values[j] == old(a.values[j]))
+//@   ensures a != nil ==> arrOK(a) && len(a.values) == old(len(a.values))
+//@   loop 1: invariant 0 <= l && l <= i && forall(j, l, len(a.values), a.values[j].IsNil())
+//@   loop 1: decreases l
+
+// One traversal step over the array part: the next position after i holding a
+// value, or 0 when there is none left; a position whose value has been cleared
+// (even the last one, which shrinks len) is still a valid starting point.
+//@ func (*array).next
+//@   prop C03
+//@   arith int
+//@   requires a != nil ==> arrOK(a)
+//@   modifies nothing
+//@   ensures ok == (a != nil && 0 <= i && i <= len(a.values))
+//@   ensures ok && next == 0 ==> forall(j, i, len(a.values), a.values[j].IsNil())
+//@   ensures ok && next != 0 ==> i < next && next <= a.len && !a.values[next-1].IsNil() && v == a.values[next-1] && forall(j, i, next-1, a.values[j].IsNil())
+//@   loop 1: invariant old(i) <= i && (i <= a.len || i == old(i)) && i <= len(a.values) && forall(j, old(i), i, a.values[j].IsNil())
+//@   loop 1: decreases a.len - i
+
+// Short strings carry their bytes and length in the scalar (which is what
+// equality and hashing of string keys look at); longer ones have scalar 0.
+//@ func StringValue
+//@   prop C03
+//@   arith bv
+//@   modifies everything()
+//@   ensures len(s) > 7 ==> result.scalar == 0
+//@   ensures len(s) <= 7 ==> result.scalar >> 56 == uint64(len(s))
+//@   ensures 0 < len(s) && len(s) <= 7 ==> uint8(result.scalar) == s[0]
+//@   ensures 1 < len(s) && len(s) <= 7 ==> uint8(result.scalar >> 8) == s[1]
+//@   ensures 2 < len(s) && len(s) <= 7 ==> uint8(result.scalar >> 16) == s[2]
+//@   ensures 3 < len(s) && len(s) <= 7 ==> uint8(result.scalar >> 24) == s[3]
+//@   ensures 4 < len(s) && len(s) <= 7 ==> uint8(result.scalar >> 32) == s[4]
+//@   ensures 5 < len(s) && len(s) <= 7 ==> uint8(result.scalar >> 40) == s[5]
+//@   ensures 6 < len(s) && len(s) <= 7 ==> uint8(result.scalar >> 48) == s[6]
+//@   ensures len(s) <= 0 ==> uint8(result.scalar) == 0
+//@   ensures len(s) <= 1 ==> uint8(result.scalar >> 8) == 0
+//@   ensures len(s) <= 2 ==> uint8(result.scalar >> 16) == 0
+//@   ensures len(s) <= 3 ==> uint8(result.scalar >> 24) == 0
+//@   ensures len(s) <= 4 ==> uint8(result.scalar >> 32) == 0
+//@   ensures len(s) <= 5 ==> uint8(result.scalar >> 40) == 0
+//@   ensures len(s) <= 6 ==> uint8(result.scalar >> 48) == 0
+//@   ensures typeis(result.iface, string) && asType(result.iface, string) == s
